@@ -130,6 +130,8 @@ def _minmax(interp, args, kwargs, is_min):
         src = args[0]
         if isinstance(src, (SOpt, SChoice)):
             src = interp.resolve(src)
+        if isinstance(src, (SList, SIter)):
+            return _minmax_slist(interp, src, is_min)
         items = list(interp.iterate(src))
     else:
         items = list(args)
@@ -380,6 +382,14 @@ def m_filter(interp, args, kwargs):
     f, src = args
     if isinstance(src, (SOpt, SChoice)):
         src = interp.resolve(src)
+    if isinstance(src, (SList, SIter, SEnumerate)):
+        from . import seqs
+
+        def cond(interp2, x):
+            v = x if f is None else interp2.call(f, [x], {})
+            return to_z3(interp2.truth(v))
+
+        return SIter(seqs.filtered(interp, src, cond), 0)
 
     def gen():
         for x in interp.iterate(src):
@@ -393,6 +403,11 @@ def m_filter(interp, args, kwargs):
 @model(builtins.reversed)
 def m_reversed(interp, args, kwargs):
     (x,) = args
+    if isinstance(x, (SOpt, SChoice)):
+        x = interp.resolve(x)
+    if isinstance(x, SList):
+        from . import seqs
+        return SIter(seqs.reversed_(interp, x), 0)
     if isinstance(x, (list, tuple)):
         return reversed(x)
     return reversed(list(interp.iterate(x)))
@@ -400,6 +415,14 @@ def m_reversed(interp, args, kwargs):
 
 @model(builtins.sorted)
 def m_sorted(interp, args, kwargs):
+    src = args[0]
+    if isinstance(src, (SOpt, SChoice)):
+        src = interp.resolve(src)
+    if isinstance(src, (SList, SIter, SEnumerate)):
+        if kwargs:
+            raise Unsupported('sorted(symbolic sequence) with key/reverse')
+        from . import seqs
+        return seqs.sorted_(interp, src)
     items = list(interp.iterate(args[0]))
     key = kwargs.get('key')
     rev = kwargs.get('reverse', False)
@@ -700,6 +723,13 @@ def slist_getitem(interp, xs, idx):
         return seqs.slice_(interp, xs, idx)
     t = to_z3(idx)
     n = xs.length
+    if st.no_fork and st.side_conditions:
+        # inside a quantifier body sequences are total; being in range becomes part of the body
+        # (natively an out-of-range access makes the clause fail, so `in range` is what the clause says)
+        in_range = z3.And(t >= 0, t < n)
+        if not st.must_hold(in_range):
+            st.side_conditions[-1].append(st._scoped(in_range))
+        return slist_elem(interp, xs, t)
     if st.fork(wrap(z3.And(t >= 0, t < n))):
         return slist_elem(interp, xs, t)
     if st.fork(wrap(z3.And(t < 0, t >= -n))):
@@ -825,7 +855,9 @@ def _quant(interp, args, is_forall):
     rng = z3.And(lo_t <= j, j < hi_t)
     st.no_fork += 1
     n_pc = len(st.pc)
+    n_fresh = len(st.fresh_log)
     st.solver.push()
+    st.side_conditions.append([])
     try:
         with st.scope(rng):
             if st.check() == z3.unsat:
@@ -837,11 +869,24 @@ def _quant(interp, args, is_forall):
         st.solver.pop()
         learned = st.pc[n_pc:]
         del st.pc[n_pc:]
+        side = st.side_conditions.pop()
+    if side:
+        body = wrap(z3.And(*(side + [to_z3(body)])))
     # facts assumed about the element at the arbitrary index j hold for every index
-    # (forall-introduction: j was fresh and constrained only by the range, which each fact carries)
+    # (forall-introduction: j was fresh and constrained only by the range, which each fact carries).
+    # Constants created while evaluating the body (pieces of string decompositions, results of
+    # havoc) depend on j: they become Skolem functions of j.
+    created = [c for c in st.fresh_log[n_fresh:] if not c.eq(j)]
+    subst = []
+    for c in created:
+        f = z3.Function(c.decl().name() + '@', z3.IntSort(), c.sort())
+        subst.append((c, f(j)))
+    bt = to_z3(body)
+    if subst:
+        learned = [z3.substitute(t, *subst) for t in learned]
+        bt = z3.substitute(bt, *subst)
     for t in learned:
         st._add(z3.ForAll([j], t) if _mentions(t, j) else t)
-    bt = to_z3(body)
     if is_forall:
         return wrap(z3.ForAll([j], z3.Implies(rng, bt)))
     return wrap(z3.Exists([j], z3.And(rng, bt)))
@@ -884,3 +929,48 @@ def _count_reduce_site(interp):
             fr.reduce_counter = k + 1
             return fr, k
     return None, 0
+
+
+def m_items_of(interp, args, kwargs):
+    """spec helper items_of(it): the remaining items of an iterator / the items of a sequence"""
+    from . import seqs
+    x = args[0]
+    if isinstance(x, (SOpt, SChoice)):
+        x = interp.resolve(x)
+    if isinstance(x, (SList, SIter, SEnumerate)):
+        if isinstance(x, SIter):
+            if isinstance(x.pos, int) and x.pos == 0:
+                return x.xs
+            return seqs.slice_(interp, x.xs, slice(x.pos, None, None))
+        return seqs.as_slist(interp, x)
+    return list(interp.iterate(x))
+
+
+def _minmax_slist(interp, src, is_min):
+    """min/max of a non-empty symbolic sequence of integers: a bound of every element that is attained"""
+    from . import seqs
+    st = interp.st
+    xs = seqs.as_slist(interp, src)
+    if not st.fork(wrap(xs.length > 0)):
+        raise _pyraise(ValueError('min()/max() arg is an empty sequence'))
+    r = st.fresh_int('min' if is_min else 'max')
+    w = st.fresh_int('argmin' if is_min else 'argmax')
+    st.assume(z3.And(w >= 0, w < xs.length))
+    ew = slist_elem(interp, xs, w)
+    if not isinstance(ew, (SInt, int)):
+        raise Unsupported('min/max over a symbolic sequence of non-integers')
+    st.assume(to_z3(ew) == r)
+    j = st.fresh_int('j')
+    n_pc = len(st.pc)
+    st.solver.push()
+    try:
+        with st.scope(z3.And(0 <= j, j < xs.length)):
+            e = to_z3(slist_elem(interp, xs, j))
+    finally:
+        st.solver.pop()
+        learned = st.pc[n_pc:]
+        del st.pc[n_pc:]
+    for t in learned:
+        st._add(z3.ForAll([j], t) if _mentions(t, j) else t)
+    st._add(z3.ForAll([j], z3.Implies(z3.And(0 <= j, j < xs.length), (r <= e) if is_min else (r >= e))))
+    return wrap(r)
